@@ -54,6 +54,15 @@ func tcpScenario(c tcfg) *mcx.Scenario {
 						vrt.WaitUntil("application handler busy", func() bool { return handlerGo })
 					}
 				}
+				if c.Op == "close-from-handler" {
+					// the application closes the connection from inside its handler (and waits for the done signal there)
+					o.Handler = func(w *responsewriter.ResponseWriter[*client.Conn], _ *pool.Message) {
+						handlerRuns++
+						_ = w.Conn().Close()
+						closes++
+						vrt.Recv(w.Conn().Done())
+					}
+				}
 				w = tcpw.New(o)
 				w.CC.AddOnClose(func() { onClose++ })
 				w.CC.AddOnClose(func() { onClose++ })
@@ -82,6 +91,9 @@ func tcpScenario(c tcfg) *mcx.Scenario {
 					case "ping":
 						err = w.CC.Ping(ctx)
 					case "idle":
+						vrt.Recv(w.CC.Done())
+					case "close-from-handler":
+						w.Inject(message.Message{Code: codes.GET, Token: message.Token{0xB1}})
 						vrt.Recv(w.CC.Done())
 					case "full-queue":
 						// one message in the busy handler, one queued, the read loop parked handing over the third
@@ -211,5 +223,6 @@ func addSessionScenarios(r *ev.Run, scs *[]*mcx.Scenario) {
 	}
 	*scs = append(*scs, tcpScenario(tcfg{Op: "full-queue", Intr: "close2", Preempt: ev.Pick(r, 1, 2)}))
 	*scs = append(*scs, csmFailScenario(false), csmFailScenario(true))
+	*scs = append(*scs, tcpScenario(tcfg{Op: "close-from-handler", Intr: "none", Preempt: ev.Pick(r, 1, 2)}))
 	addUDPSessionScenarios(r, scs)
 }
